@@ -278,8 +278,64 @@ def check_content_classes(c, r, kind, tag):
     c.case(('classes', kind, ss.raw), dict(kind=tag, tunnel=kind, frames=len(inner)))
 
 
+def check_same_hosts(c, r, tag):
+    """sessions of DIFFERENT kinds (and GRE sessions of several protocol types, 0x88be among them) between the same two hosts, with
+    the same raw setting, used in turn: each packet has the header of the session it was asked of"""
+    a, b = r.below(2 ** 32), r.below(2 ** 32); raw = r.chance(1, 3)
+    specs = [('erspan1', None), ('erspan2', None), ('gre', 0x88be), ('gre', 0x6558), ('gre', 0x0800), ('vxlan', None), ('erspan2', None)]
+    sessions = []
+    for i, (k, et) in enumerate(specs):
+        ss = Sess(k, i, r); ss.a, ss.b, ss.raw = a, b, raw
+        rw = ', raw: true' if raw else ''
+        if k == 'vxlan': ss.decl = 'let %s = vxlan::session(%s:%d, %s:%d, sessionid: %d%s);' % (ss.name, ip(a), ss.sp, ip(b), ss.dp, ss.vni, rw)
+        elif k == 'gre': ss.et = et; ss.decl = 'let %s = gre::session(%s, %s, %d%s);' % (ss.name, ip(a), ip(b), et, rw)
+        else: ss.decl = 'let %s = %s::session(%s, %s%s);' % (ss.name, k, ip(a), ip(b), rw)
+        sessions.append(ss)
+    head = ['import ipv4;', 'import eth;', 'import vxlan;', 'import gre;', 'import erspan1;', 'import erspan2;']
+    body, used, inner = [], [], []
+    order = [0, 1, 0, 1, 2, 1, 3, 6, 4, 1, 5, 6, 0, 2, 6] + [r.below(len(sessions)) for _ in range(6)]
+    for si in order:
+        ss = sessions[si]
+        fr = bytes([2, 0, 0, 0, 0, 2, 2, 0, 0, 0, 0, 1]) + r.bytes(2 + r.below(10))
+        e = 'eth::frame("|020000000001|", "|020000000002|", ethertype: %d%s)' % (int.from_bytes(fr[12:14], 'big'), ', "|%s|"' % fr[14:].hex() if len(fr) > 14 else '')
+        w, pi = ss.wrap(e, r, True)
+        body.append(w + ';'); used.append((ss, pi)); inner.append(fr)
+    src = ('\n'.join(head + [x.decl for x in sessions] + body) + '\n').encode()
+    impl, model = progdiff.run_both(c, src)
+    progdiff.compare(c, src, impl, model, 'tunnel-same-hosts')
+    rep = dict(src=src.decode()[:4000])
+    if impl['outcome'][0] == 'success':
+        outer = [x[1] for x in progdiff.pcap_records(impl['file'] or b'')]
+        if len(outer) != len(used):
+            c.violation('tunnel:count', '%d encapsulating statements became %d packets' % (len(used), len(outer)), rep)
+        else:
+            counts = {x.name: 0 for x in sessions}
+            for i, (o, (ss, pi), inn) in enumerate(zip(outer, used, inner)):
+                a_ = c.model.ask('oracle decap %s %s' % (ss.kind, sh_hex(o if raw else o[14:])))
+                if not a_.startswith('ok'):
+                    c.violation('tunnel:%s:undecodable' % ss.kind, 'sessions of several kinds between one host pair: packet %d (session %s) is not a %s packet' % (i, ss.name, ss.kind), rep); break
+                f = kv(a_)
+                want = {}
+                if ss.kind == 'vxlan': want = dict(sport=str(ss.sp), dport=str(ss.dp), vni=str(ss.vni))
+                elif ss.kind == 'gre': want = dict(flags='0', proto=str(ss.et), seq='-')
+                elif ss.kind == 'erspan2':
+                    want = dict(seq=str(counts[ss.name]), ver='1', session='0')
+                    if pi is not None: want['index'] = str(pi)
+                bad = [k for k in want if f.get(k) != want[k]]
+                if bad or core.unhex(f['inner']) != inn:
+                    c.violation('tunnel:%s:%s' % (ss.kind, ','.join(bad) or 'payload'), 'sessions of several kinds between one host pair: packet %d (session %s): got %s want %s' % (i, ss.name, {k: f.get(k) for k in bad}, {k: want[k] for k in bad}), rep); break
+                counts[ss.name] += 1
+            c.traces_validated += 1
+    elif impl['outcome'][0] == 'panic':
+        c.violation('tunnel:panic', 'implementation panicked: %s' % (impl['outcome'][1],), rep)
+    c.count('same-hosts-mixed-kinds')
+    c.case(('same-hosts', raw), dict(kind=tag, raw=raw))
+
+
 def campaign(c):
     c.rule = RULE
+    for j in range(4 if c.quick else 60):
+        check_same_hosts(c, c.rng.fork('samehosts%d' % j), 'same-hosts-mixed-kinds')
     for j, k in enumerate(KINDS * (1 if c.quick else 6)):
         check_content_classes(c, c.rng.fork('classes%d' % j), k, 'content-classes')
     for j in range(16 if c.quick else 240):
